@@ -465,7 +465,7 @@ func (m *streeModel) ruleCloneTree(c *Ctx) {
 
 func runC01(c *Ctx) {
 	P := c.P
-	c.Explanation = "Decides structural clauses: (R-CLONE-FRESH) Tree.Clone's root is a deep copy — every node allocated by node.clone has both child links set to copies (clone results, nil or other fresh nodes), never to a pointer of the original, and clone never writes the original; so no node is shared and later changes to either tree cannot affect the other. (R-YIELD) inorder/inorderAfter/Inorder/InorderAfter stop calling yield once it returned false and forward the stop flag. (R-ORIENT) the side on which smaller keys live is read from the ascending in-order walk (the child visited before the node is yielded); all four key descents (insert, remove, Get, pathTo) go to that side when key < node and to the other when key > node; Min/Max/popMinRight/inorderAfter and the bulk loader follow the same orientation. (R-CMP-SIGN) every test of the comparison's result against a constant is a pure sign test; (R-REBUILD-USED) the subtree returned by the in-place rebuild is returned or stored in a link, never dropped. Does NOT decide that contents/return values equal a reference set over histories, size/max bookkeeping, the DSW rebuild, or de-duplication in New."
+	c.Explanation = "Decides structural clauses: (R-CLONE-FRESH) Tree.Clone's root is a deep copy — every node allocated by node.clone has both child links set to copies (clone results, nil or other fresh nodes), never to a pointer of the original, and clone never writes the original; so no node is shared and later changes to either tree cannot affect the other. (R-YIELD) inorder/inorderAfter/Inorder/InorderAfter stop calling yield once it returned false and forward the stop flag. (R-ORIENT) the side on which smaller keys live is read from the ascending in-order walk (the child visited before the node is yielded); all four key descents (insert, remove, Get, pathTo) go to that side when key < node and to the other when key > node; Min/Max/popMinRight/inorderAfter and the bulk loader follow the same orientation. (R-CMP-SIGN) every test of the comparison's result against a constant is a pure sign test; (R-REBUILD-USED) the subtree returned by the in-place rebuild is returned or stored in a link, never dropped. (R-LINK-STALE) a child link copied into another link was read after the last call that could rewrite it; (R-NIL-DROP) a link of a retained node is set to nil only when the old child is known nil, childless or re-attached; (R-READONLY) lookups, iteration, cursor construction and cloning store to no field of Tree or node; the cached count handed to the rebuild is final. Does NOT decide that contents/return values equal a reference set over histories, size/max bookkeeping, the DSW rebuild, or de-duplication in New."
 	c.rule("R-CLONE-FRESH", 5, "clone's copies link only to copies; Tree.Clone's root is node.clone(root)")
 	c.rule("R-YIELD", 4, "in-order iteration is stoppable")
 	c.rule("R-ORIENT", 12, "descents and one-sided navigation agree with the orientation of the in-order walk")
@@ -655,7 +655,7 @@ func (m *streeModel) ruleCursorGuard(c *Ctx) {
 
 func runC03(c *Ctx) {
 	P := c.P
-	c.Explanation = "Decides structural clauses: (R-GUARD valid) in every method of *stree.Cursor each dereference of the cursor (and each call of the private findNext/findPrev, whose precondition is validity) is dominated by a successful Valid() check, chaining methods return the receiver and Key returns the zero value on the invalid path — so operations on an invalid or nil cursor are harmless no-ops. (R-CLONE-FRESH) Cursor.Clone copies the path (fresh slice) or returns the receiver only when it is invalid, so clones move independently. (R-ORIENT) every navigation method reads the child sides binary-search-tree navigation requires, relative to the orientation of the in-order walk: Left/HasLeft/Min the small side, Right/HasRight/Max the large side, findNext large-then-small with Next descending small, findPrev/Prev mirrored. (R-YIELD) Cursor.Inorder is stoppable. (R-ASCEND-GATED) Next (Prev) shortens or drops the path only on paths where a large-side (small-side) child link has been read. (R-CMP-SIGN) comparison results are tested by sign only. Does NOT decide that Next/Prev land on exactly the adjacent key for every tree shape (needs the BST invariant, C01's undecided part) nor Cursor(key) validity."
+	c.Explanation = "Decides structural clauses: (R-GUARD valid) in every method of *stree.Cursor each dereference of the cursor (and each call of the private findNext/findPrev, whose precondition is validity) is dominated by a successful Valid() check, chaining methods return the receiver and Key returns the zero value on the invalid path — so operations on an invalid or nil cursor are harmless no-ops. (R-CLONE-FRESH) Cursor.Clone copies the path (fresh slice) or returns the receiver only when it is invalid, so clones move independently. (R-ORIENT) every navigation method reads the child sides binary-search-tree navigation requires, relative to the orientation of the in-order walk: Left/HasLeft/Min the small side, Right/HasRight/Max the large side, findNext large-then-small with Next descending small, findPrev/Prev mirrored. (R-YIELD) Cursor.Inorder is stoppable. (R-ASCEND-GATED) Next (Prev) shortens or drops the path only on paths where a large-side (small-side) child link has been read. (R-CMP-SIGN) comparison results are tested by sign only. (R-PATH-COMPLETE) the search that builds a cursor's path appends the node on every trip round its loop; (R-PATH-FRESH) the path stored in a new Cursor is freshly allocated; (R-READONLY) read-only operations store to no field of Tree or node; HasNext/HasPrev give every answer other than false after consulting findNext/findPrev. Does NOT decide that Next/Prev land on exactly the adjacent key for every tree shape (needs the BST invariant, C01's undecided part) nor Cursor(key) validity."
 	c.rule("R-GUARD", 14, "every cursor dereference is under Valid(); results on the invalid path are receiver / false / zero")
 	c.rule("R-CLONE-FRESH", 1, "Cursor.Clone's path is a fresh copy, or the receiver is returned only when invalid")
 	c.rule("R-ORIENT", 12, "navigation methods read the child sides BST navigation requires")
@@ -746,7 +746,7 @@ func runC03(c *Ctx) {
 
 func runC04(c *Ctx) {
 	P := c.P
-	c.Explanation = "Decides: (R-GUARD nil) 'a zero Map behaves as an empty read-only map' — every use of the possibly-nil tree pointer (Map.m / Iter.m) as a method receiver or bound receiver in package omap is dominated by a != nil test of the same field with no intervening store; the one exemption is Map.Set, documented to panic on a zero Map. Calls on Iter.c (a possibly-nil *stree.Cursor) are allowed because C03's R-GUARD(valid) makes every cursor method nil-safe; this check re-runs that rule and fails if it fails. (R-NATURAL-ORDER) omap.New installs cmp.Compare or a comparison that reaches it or handles NaN. (R-REBUILD-USED, R-ROOT-FLOW, shared with C01) the rebuilt subtree and the modified root are kept. Does NOT decide agreement with a reference sorted map, Seek positioning, or iterator order."
+	c.Explanation = "Decides: (R-GUARD nil) 'a zero Map behaves as an empty read-only map' — every use of the possibly-nil tree pointer (Map.m / Iter.m) as a method receiver or bound receiver in package omap is dominated by a != nil test of the same field with no intervening store; the one exemption is Map.Set, documented to panic on a zero Map. Calls on Iter.c (a possibly-nil *stree.Cursor) are allowed because C03's R-GUARD(valid) makes every cursor method nil-safe; this check re-runs that rule and fails if it fails. (R-NATURAL-ORDER) omap.New installs cmp.Compare or a comparison that reaches it or handles NaN. (R-REBUILD-USED, R-ROOT-FLOW, shared with C01) the rebuilt subtree and the modified root are kept. (R-LINK-STALE, R-NIL-DROP, R-READONLY, R-PATH-FRESH, R-PATH-COMPLETE, shared with C01/C03) link edits of removal, read-only lookups and fresh cursor paths. Does NOT decide agreement with a reference sorted map, Seek positioning, or iterator order."
 	c.rule("R-GUARD", 6, "every method call on Map.m / Iter.m is under a != nil guard (Map.Set exempt); cursor methods are nil-safe (C03)")
 	mapT, iterT := P.Named("omap", "Map"), P.Named("omap", "Iter")
 	mF, imF := P.Field("omap", "Map", "m"), P.Field("omap", "Iter", "m")
